@@ -14,7 +14,15 @@ SCHEMA_F = {"type": "record", "name": "F", "fields": [{"name": "a", "type": "int
                                                         {"name": "m", "type": {"type": "map", "values": "int"}}]}
 
 
+SCHEMA_G = {"type": "record", "name": "G", "fields": [{"name": "a", "type": "long"}, {"name": "x", "type": {"type": "fixed", "name": "Four", "size": 4}},
+                                                        {"name": "e", "type": {"type": "enum", "name": "En", "symbols": ["P", "Q"]}}]}
+
+
 def family_ops(fam):
+    if fam == "G":
+        # non-conforming leaves whose wrongness is a matter of size / membership, after the first field was encoded
+        return {"Wok": {"a": 2 ** 40, "x": b"abcd", "e": "Q"}, "Wbad_short": {"a": 1, "x": b"ab", "e": "P"}, "Wbad_long": {"a": 1, "x": b"abcdef", "e": "P"},
+                "Wbad_symbol": {"a": 1, "x": b"abcd", "e": "R"}}
     if fam == "F":
         # failing records that raise something other than TypeError / ValueError after some bytes were produced
         return {"Wok": {"a": 3, "f": 1.5, "m": {"k": 1}}, "Wbad_overflow": {"a": 1, "f": 1e39, "m": {}}, "Wbad_attr": {"a": 1, "f": 1.0, "m": [1]},
@@ -92,6 +100,10 @@ def run_history(fa, cid, schema, ops, codec, interval, donors, validator=False, 
                 holder["fo"] = open(path, "a+b")
             else:
                 holder["fo"].seek(0, 2)
+                if a.get("pos"):
+                    # the application left the stream somewhere in the middle (it looked at the header, or at the first half)
+                    end = holder["fo"].tell()
+                    holder["fo"].seek(max(1, min(end - 1, 4 if a["pos"] == "magic" else end // 2)))
             state["w"] = W.Writer(holder["fo"], a.get("schema", schema), codec=a.get("codec", codec), sync_interval=a.get("interval", interval),
                                   validator=validator, sync_marker=a.get("sync", b""), metadata=a.get("meta"))
             events.append({"op": "reopen", "raised": False, "stream": snap()})
@@ -144,13 +156,14 @@ def exhaustive(ctx, fa, maxlen):
     """Every history up to maxlen over the alphabet, per family/codec/interval (the bounded universe of DESIGN 3/C07)."""
     rnd = ctx.sub_rnd("ex")
     cases = []
-    for fam, schema in (("A", SCHEMA_A), ("E", SCHEMA_E), ("F", SCHEMA_F)):
+    for fam, schema in (("A", SCHEMA_A), ("E", SCHEMA_E), ("F", SCHEMA_F), ("G", SCHEMA_G)):
         recs = family_ops(fam)
         good = [v for k, v in recs.items() if "bad" not in k]
         donors = make_donors(fa, schema, good, ["null", "deflate"], rnd)
         alphabet = [("write", v) for v in recs.values()] + [("flush",), ("wblock", 0, 0, 1), ("wblock", 1, 0, 0),
-                                                             ("reopen", {"schema": OTHER_SCHEMA, "codec": "bzip2", "meta": {"m": "2"}})]
-        configs = [("null", 1), ("deflate", 25), ("null", 100000)] if fam == "A" else [("null", 100000)] if fam == "F" else [("null", 1), ("deflate", 100000)]
+                                                             ("reopen", {"schema": OTHER_SCHEMA, "codec": "bzip2", "meta": {"m": "2"}}),
+                                                             ("reopen", {"pos": "half"})]
+        configs = [("null", 1), ("deflate", 25), ("null", 100000)] if fam == "A" else [("null", 100000)] if fam in ("F", "G") else [("null", 1), ("deflate", 100000)]
         for codec, interval in configs:
             for n in range(1, maxlen + 1):
                 for seq in itertools.product(alphabet, repeat=n):
@@ -196,8 +209,9 @@ def randomised(ctx, fa, n, maxops):
                 d = rnd.randrange(len(donors))
                 ops.append(("wblock", d, rnd.randrange(nblocks[d]), rnd.choice([0, 0, 1, 2])))
             else:
-                ops.append(("reopen", rnd.choice([{}, {"schema": None}, {"schema": OTHER_SCHEMA, "codec": rnd.choice(codecs)},
-                                                   {"codec": rnd.choice(codecs), "meta": {"other": "meta"}, "sync": b"S" * 16}])))
+                ops.append(("reopen", dict(rnd.choice([{}, {"schema": None}, {"schema": OTHER_SCHEMA, "codec": rnd.choice(codecs)},
+                                                        {"codec": rnd.choice(codecs), "meta": {"other": "meta"}, "sync": b"S" * 16}]),
+                                           pos=rnd.choice([None, None, "magic", "half"]))))
         ops.append(("flush",))
         try:
             onfile = rnd.random() < 0.25
